@@ -452,9 +452,34 @@ var c01Family = []reflect.Type{
 	c01T[c01Strings](), c01T[any](), c01T[[]any](), c01T[c01AnyHolder](),
 }
 
-// c01DynType draws a type from the grammar (bounded nesting) and builds it with
-// package reflect. Struct fields are exported and untagged.
-func c01DynType(rt *rapid.T, depth int) reflect.Type {
+// c01DynTypes bounds the number of distinct constructed types per process: the
+// package under test caches per-type codecs forever (copying its cache on every
+// new type), so an unbounded stream of fresh types would make long runs quadratic.
+const c01DynTypes = 4096
+
+var c01DynCache = map[int]reflect.Type{}
+
+// c01DynType draws one of c01DynTypes types built from the type grammar (bounded
+// nesting) with package reflect. The type is a pure function of the drawn index.
+// Struct fields are exported and untagged.
+func c01DynType(rt *rapid.T) reflect.Type {
+	idx := c01Pick(rt, "dyn-type", c01DynTypes)
+	if t, ok := c01DynCache[idx]; ok {
+		return t
+	}
+	x := uint64(idx)*0x9e3779b97f4a7c15 + 0x1234567
+	next := func(n int) int {
+		x ^= x << 13
+		x ^= x >> 7
+		x ^= x << 17
+		return int((x >> 20) % uint64(n))
+	}
+	t := c01BuildType(next, 3)
+	c01DynCache[idx] = t
+	return t
+}
+
+func c01BuildType(next func(int) int, depth int) reflect.Type {
 	leaves := []reflect.Type{
 		c01T[uint8](), c01T[uint16](), c01T[uint32](), c01T[uint64](), c01T[uint](), c01T[bool](),
 		c01T[*big.Int](), c01T[big.Int](), c01T[*uint256.Int](), c01T[uint256.Int](),
@@ -463,29 +488,29 @@ func c01DynType(rt *rapid.T, depth int) reflect.Type {
 	}
 	k := 0
 	if depth > 0 {
-		k = c01Pick(rt, "tkind", 7)
+		k = next(7)
 		if depth == 3 && k < 2 {
-			k = 2 + c01Pick(rt, "tkind-top", 5) // the top level of a constructed type is composite
+			k = 2 + next(5) // the top level of a constructed type is composite
 		}
 	}
 	switch k {
 	case 0, 1:
-		return leaves[c01Pick(rt, "leaf", len(leaves))]
+		return leaves[next(len(leaves))]
 	case 2:
-		return reflect.SliceOf(c01DynType(rt, depth-1))
+		return reflect.SliceOf(c01BuildType(next, depth-1))
 	case 3:
-		return reflect.ArrayOf(rapid.IntRange(0, 3).Draw(rt, "alen"), c01DynType(rt, depth-1))
+		return reflect.ArrayOf(next(4), c01BuildType(next, depth-1))
 	case 4:
-		e := c01DynType(rt, depth-1)
+		e := c01BuildType(next, depth-1)
 		if e.Kind() == reflect.Pointer {
 			return e
 		}
 		return reflect.PointerTo(e)
 	default:
-		n := rapid.IntRange(2, 5).Draw(rt, "nfields")
+		n := 2 + next(4)
 		fs := make([]reflect.StructField, n)
 		for i := range fs {
-			fs[i] = reflect.StructField{Name: fmt.Sprintf("F%d", i), Type: c01DynType(rt, depth-1)}
+			fs[i] = reflect.StructField{Name: fmt.Sprintf("F%d", i), Type: c01BuildType(next, depth-1)}
 		}
 		return reflect.StructOf(fs)
 	}
@@ -681,7 +706,7 @@ func c01Pick(rt *rapid.T, label string, n int) int {
 // constructed one.
 func c01DrawType(rt *rapid.T) (reflect.Type, string) {
 	if c01Pick(rt, "dyn", 5) == 0 {
-		return c01DynType(rt, 3), "dyn"
+		return c01DynType(rt), "dyn"
 	}
 	return c01Family[c01Pick(rt, "type", len(c01Family))], "fixed"
 }
